@@ -27,12 +27,12 @@ func (check) Assumptions() []string {
 
 // ---- programs ----
 
-func st(f ...tbin.SField) *tbin.Shape { return tbin.StructS(f...) }
+func st(f ...tbin.SField) *tbin.Shape        { return tbin.StructS(f...) }
 func sf(id int16, s *tbin.Shape) tbin.SField { return tbin.SF(id, s) }
 
 func bases() []*tbin.Shape {
 	i32, str, i64, bin, dbl, bl, by, i16 := tbin.Sc(tbin.I32), tbin.Sc(tbin.STRING), tbin.Sc(tbin.I64), tbin.BinS(), tbin.Sc(tbin.DOUBLE), tbin.Sc(tbin.BOOL), tbin.Sc(tbin.BYTE), tbin.Sc(tbin.I16)
-	return []*tbin.Shape{
+	out := []*tbin.Shape{
 		st(sf(1, i32), sf(2, str), sf(3, st(sf(1, i32), sf(2, str))), sf(4, tbin.ListS(st(sf(1, i32), sf(2, str)))), sf(5, tbin.MapS(str, st(sf(1, i64), sf(2, bin))))),
 		st(sf(1, tbin.SetS(st(sf(1, i32)))), sf(2, tbin.MapS(st(sf(1, i32), sf(2, str)), st(sf(1, dbl)))), sf(3, tbin.MapS(i32, tbin.ListS(st(sf(1, bl), sf(2, by)))))),
 		st(sf(1, st(sf(1, st(sf(1, i32), sf(2, str))), sf(2, i16))), sf(2, tbin.ListS(tbin.ListS(st(sf(1, i32)))))),
@@ -40,6 +40,20 @@ func bases() []*tbin.Shape {
 		tbin.ListS(st(sf(1, i32), sf(2, str))),
 		tbin.MapS(str, st(sf(1, i32), sf(2, tbin.ListS(st(sf(3, dbl)))))),
 	}
+	// every depth-2 nesting of {list, set, map value, map key} around a struct, as a field of a small struct
+	leafS := func() *tbin.Shape { return st(sf(1, i32), sf(2, str)) }
+	wrap := []func(e *tbin.Shape) *tbin.Shape{
+		func(e *tbin.Shape) *tbin.Shape { return tbin.ListS(e) },
+		func(e *tbin.Shape) *tbin.Shape { return tbin.SetS(e) },
+		func(e *tbin.Shape) *tbin.Shape { return tbin.MapS(str, e) },
+		func(e *tbin.Shape) *tbin.Shape { return tbin.MapS(e, i32) },
+	}
+	for _, outer := range wrap {
+		for _, inner := range wrap {
+			out = append(out, st(sf(1, outer(inner(leafS()))), sf(2, i32)))
+		}
+	}
+	return out
 }
 
 type pair struct {
@@ -484,4 +498,3 @@ func run(p pair, parse, variant string) core.Result {
 	}
 	return r
 }
-
